@@ -1219,10 +1219,10 @@ func sortedVersions(m map[uint64][]*cand) []uint64 {
 // Child process.
 
 const (
-	envChild = "VERIF_C07_CHILD"
-	envSpec  = "VERIF_C07_SPEC"
-	envDir   = "VERIF_C07_DIR"
-	envS0    = "VERIF_C07_S0"
+	envChild       = "VERIF_C07_CHILD"
+	envSpec        = "VERIF_C07_SPEC"
+	envDir         = "VERIF_C07_DIR"
+	envS0          = "VERIF_C07_S0"
 	exitChildError = 3
 )
 
@@ -1353,7 +1353,6 @@ func contains(l []string, x string) bool {
 // cleanup on open) fails or yields a damaged root.
 func sigFresh(backend string) string { return "crash-" + backend + "-multipart-fresh-restore-damaged" }
 
-
 var knownFindings = []knownFinding{
 	{
 		// pathbadger reserves a root sequence number per StartMultipartInsert and never gives it back; a
@@ -1388,20 +1387,31 @@ var knownFindings = []knownFinding{
 // one (kind, site): every crash point between the first completed chunk and the final metadata commit
 // of the restore, and every AbortMultipartInsert / cleanup on open. While it is a known finding exactly
 // this clause is skipped (counted as discard "excluded:<sig>") and everything behind it is still checked.
+// probing is set by the known-finding probes (each runs in a process of its own): no exclusion applies.
+var probing bool
+
 func sigVisible(backend string) string {
 	return "crash-" + backend + "-multipart-partial-restore-visible"
 }
 
-//
 // The known form on badger is "the root ENTRY survives, the restored nodes and the root node are
 // removed"; leftovers whose root node can still be fetched are NOT covered by the exclusion (that would
 // be a cleanup that did not happen at all). pathbadger's cleanup removes nothing even on the unchanged
 // tree (it never writes the restore log), so no such distinction is possible there.
 func relaxVisible(backend string, s *state) bool {
-	if !ev.Excluded(sigVisible(backend)) {
+	if probing || !ev.Excluded(sigVisible(backend)) {
 		return false
 	}
 	return backend != "badger" || s.RootNode != "ok"
+}
+
+// visibleSig names a violation of clause (4): the known form, or - badger only - the stronger form in
+// which not even the restored nodes were removed (the root node of the partial restore can be fetched).
+func visibleSig(backend string, s *state) string {
+	if backend == "badger" && s.RootNode == "ok" {
+		return "crash-badger-multipart-leftover-nodes-kept"
+	}
+	return sigVisible(backend)
 }
 
 func excludedHistory(backend, kind string) string {
@@ -1563,8 +1573,8 @@ func diffCensus(got, want map[string]bool) string {
 // reference holds what the uninterrupted run looks like.
 type reference struct {
 	census map[string]bool // live raw keys after O (prune / finalize)
-	s0, s1 *state // before O, right after O
-	sr, s2 *state // after repeating O (+ a fresh restore for abort/reopen), after the suffix
+	s0, s1 *state          // before O, right after O
+	sr, s2 *state          // after repeating O (+ a fresh restore for abort/reopen), after the suffix
 	sites  []string
 }
 
@@ -1711,7 +1721,7 @@ func checkCrash(p *plan, ck *ckpt, ref *reference, dir string, i int) (out outco
 		} else if (sx.Has[key] || len(sx.Roots[p.Target]) > 0) && relaxVisible(b, sx) {
 			out.Relaxed = append(out.Relaxed, sigVisible(b))
 		} else if sx.Has[key] || len(sx.Roots[p.Target]) > 0 {
-			return out, viol(sigVisible(b), "%s: the restore of version %d was not completed (latest %s) but HasRoot(%s) = %v and GetRootsForVersion = %v (root node: %s, read: %q)", tag, p.Target, sx.meta(), key, sx.Has[key], sx.Roots[p.Target], sx.RootNode, sx.Read[key])
+			return out, viol(visibleSig(b, sx), "%s: the restore of version %d was not completed (latest %s) but HasRoot(%s) = %v and GetRootsForVersion = %v (root node: %s, read: %q)", tag, p.Target, sx.meta(), key, sx.Has[key], sx.Roots[p.Target], sx.RootNode, sx.Read[key])
 		}
 	}
 
@@ -1789,9 +1799,11 @@ type historyResult struct {
 	skipped  map[int]string
 	relaxed  []string
 	skipAll  string
-	viol     *violation
-	violAt   int
-	infra    error
+	// notAccepted: the uninterrupted pre-history failed in the count-mode child (no crash involved).
+	notAccepted string
+	viol        *violation
+	violAt      int
+	infra       error
 }
 
 // runHistory enumerates every crash point of one (H, O).
@@ -1803,9 +1815,6 @@ func runHistory(sp spec, work string, onlyIndex int, onlySite string, noExclusio
 	p := genPlan(sp)
 	res.plan = p
 	res.skipped = map[int]string{}
-	if res.skipAll = excludedHistory(sp.Backend, sp.Kind); res.skipAll != "" && !noExclusion {
-		return res
-	}
 	infra := func(format string, args ...any) historyResult {
 		res.infra = &infraErr{fmt.Sprintf(format, args...)}
 		return res
@@ -1829,6 +1838,11 @@ func runHistory(sp spec, work string, onlyIndex int, onlySite string, noExclusio
 	refDir := filepath.Join(hdir, "ref")
 	logPath, s0Path := filepath.Join(hdir, "hits.log"), filepath.Join(hdir, "s0.json")
 	cr := runChild(sp, refDir, "VERIF_CRASH_LOG="+logPath, envS0+"="+s0Path)
+	if cr.code == exitChildError && strings.Contains(cr.out, "CHILD-ERROR: history step") {
+		// the uninterrupted history itself is not accepted by the backend: not a crash matter (C06's domain)
+		res.notAccepted = tail(cr.out)
+		return res
+	}
 	if cr.code != 0 {
 		return infra("count-mode child of %v exited with %d: %s", p.describe(), cr.code, tail(cr.out))
 	}
@@ -1846,6 +1860,10 @@ func runHistory(sp spec, work string, onlyIndex int, onlySite string, noExclusio
 	if len(sites) == 0 {
 		return infra("no crash site was hit inside O of %v", p.describe())
 	}
+	if res.skipAll = excludedHistory(sp.Backend, sp.Kind); res.skipAll != "" && !noExclusion {
+		return res // every case of this history meets the precondition of an excluded finding
+	}
+	res.skipAll = ""
 	if !strings.HasSuffix(sites[0], ":begin") || !strings.HasSuffix(sites[len(sites)-1], ":end") {
 		return infra("first/last hit of O are not a begin/end site: %v", sites)
 	}
@@ -1880,7 +1898,7 @@ func runHistory(sp spec, work string, onlyIndex int, onlySite string, noExclusio
 		if (ref.s1.Has[key] || len(ref.s1.Roots[p.Target]) > 0) && relaxVisible(sp.Backend, ref.s1) {
 			res.relaxed = append(res.relaxed, sigVisible(sp.Backend))
 		} else if ref.s1.Has[key] || len(ref.s1.Roots[p.Target]) > 0 {
-			return refViol(viol(sigVisible(sp.Backend), "%s: the restore of version %d was aborted/cleaned up but HasRoot(%s) = %v and GetRootsForVersion = %v (root node: %s, read: %q)", nocrash, p.Target, key, ref.s1.Has[key], ref.s1.Roots[p.Target], ref.s1.RootNode, ref.s1.Read[key]))
+			return refViol(viol(visibleSig(sp.Backend, ref.s1), "%s: the restore of version %d was aborted/cleaned up but HasRoot(%s) = %v and GetRootsForVersion = %v (root node: %s, read: %q)", nocrash, p.Target, key, ref.s1.Has[key], ref.s1.Roots[p.Target], ref.s1.RootNode, ref.s1.Read[key]))
 		}
 	}
 	rdb, _, err = retryO(rdb, sp.Backend, refDir, p, ck, ref.s1)
@@ -2006,8 +2024,9 @@ const rule = "case = (history, crash index): a history H generated from a harnes
 	"for EVERY i in 1..n a fresh child re-executes H;O and dies with os.Exit(77) at hit i; the parent reopens the directory and checks: (1) every root finalized before O passes full scan + Get of every key + absent keys + one " +
 	"verified SyncGet proof against the model (reference root hashes are computed independently), (2) latest/earliest versions are those before O or after O, untouched versions list exactly their roots, the touched version lists " +
 	"only roots of the before/after states, (3) repeating O succeeds or reports already-done and yields exactly the observable state of the uninterrupted run (versions, root lists, HasRoot, contents of every root the uninterrupted " +
-	"run can read), (4) an unfinished restore shows no root of the restored version (HasRoot false, empty root list) and a fresh restore yields the checkpointed contents, (5) a generated commit/finalize/prune suffix succeeds, ends " +
-	"in the state of the uninterrupted run and every finalized root passes the deep read check; the uninterrupted run itself is checked the same way (crash index n+1). " +
+	"run can read), (3b) for Prune and Finalize - whose effect includes deleting data - the set of live raw badger keys after the retry equals that of the uninterrupted run (nothing leaks that no later operation deletes), (4) an unfinished restore shows no root of the restored version (HasRoot false, empty root list) and a fresh restore yields the checkpointed contents, (5) a generated commit/finalize/prune suffix succeeds, ends " +
+	"in the state of the uninterrupted run and every finalized root passes the deep read check; the uninterrupted run itself is checked the same way (crash index n+1), and reopening a database with a leftover partial restore must perform cleanup writes at all. " +
+	"The generator stays clear of the C06 findings (a discarded sibling never re-puts a node of the finalized root - measured by a dry run of every candidate commit; IO trees use their own key space; no empty or unchanged roots). " +
 	"non-trivial = crash index strictly between the first and the last durable write of O (1 < i < n; hit 1 is a ':begin' site, hit n an ':end' site); distinct = hash of (history seed, backend, kind, crash index)"
 
 // TestC07Crash is the fault enumeration.
@@ -2022,7 +2041,7 @@ func TestC07Crash(t *testing.T) {
 
 	shard, nshards := envInt("VERIF_SHARD", 0), envInt("VERIF_NSHARDS", 1)
 	seed := int64(envInt("VERIF_SEED", 1))
-	perShard := ev.Pick(16, 320)
+	perShard := ev.Pick(12, 240)
 	perShard = envInt("VERIF_C07_HISTORIES", perShard)
 	work := os.Getenv("VERIF_WORK")
 	if work == "" {
@@ -2048,6 +2067,7 @@ func TestC07Crash(t *testing.T) {
 		perShard = onlyG/nshards + 1
 	}
 	var hitsTotal, histories uint64
+	notAccepted := 0
 	for j := 0; j < perShard; j++ {
 		g := shard + nshards*j
 		if onlyG >= 0 && g != onlyG {
@@ -2059,6 +2079,14 @@ func TestC07Crash(t *testing.T) {
 			ev.Infra(t, "history %d: %v", g, res.infra)
 		}
 		p := res.plan
+		if res.notAccepted != "" {
+			rec.Discard("uninterrupted-history-not-accepted:" + sp.Backend)
+			notAccepted++
+			if notAccepted*5 > perShard+5 {
+				ev.Infra(t, "too many generated histories fail without any crash (%d of %d), last: %s", notAccepted, j+1, res.notAccepted)
+			}
+			continue
+		}
 		if res.skipAll != "" {
 			rec.Discard("excluded-history:" + res.skipAll)
 			continue
@@ -2120,10 +2148,20 @@ func probe(t *testing.T, name, rule string, sp spec, site, wantSig string, extra
 	rec := ev.New("C07", name, rule)
 	defer rec.Flush()
 	verifhook.Disarm()
+	for _, x := range strings.Split(os.Getenv("VERIF_EXCLUDE_EXTRA"), ",") {
+		if x == wantSig && x != "" {
+			// silenced by hand while investigating (a signature listed in known_findings.json arrives in
+			// VERIF_EXCLUDE and keeps being probed, so that the driver prints KNOWN-FINDING)
+			rec.Discard("silenced:" + wantSig)
+			rec.Case(false, ev.Fingerprint(name, "silenced"), nil)
+			return
+		}
+	}
 	work := os.Getenv("VERIF_WORK")
 	if work == "" {
 		work = t.TempDir()
 	}
+	probing = true
 	res := runHistory(sp, work, 0, site, true)
 	if res.infra != nil {
 		ev.Infra(t, "%v", res.infra)
